@@ -197,6 +197,18 @@ fn c12(rng: &mut Rng, idx: usize) -> Case {
         c.nontrivial = true;
         return c;
     }
+    if idx % 500 == 19 {
+        // ancestor queries on an ontology whose terms have MORE than 30 ancestors (beyond the inline
+        // capacity of a group) combined with multi-parent structure and shortcuts
+        let mut c = Case::new("ancestor-queries-trunk");
+        let f = gen_trunk(rng);
+        facts_stats(&f, &mut c);
+        facts_to_prog(rng, &f, &ProgOpts { shuffle: true, failing_permille: 0, build_defaults: true, slot: 0 }, &mut c);
+        c.op("anc2 0".to_string());
+        c.stat("trunk_cases", 1);
+        c.nontrivial = true;
+        return c;
+    }
     if idx % 10 == 9 {
         // ancestor queries of all pairs of terms of an ontology (8 variants)
         let mut c = Case::new("ancestor-queries");
@@ -418,7 +430,10 @@ fn c20(rng: &mut Rng, tier: &str, idx: usize) -> Case {
             }
             1 => {
                 let n = rng.below(10_000_000);
-                format!("HP:{n:07}")
+                // (one in four: a complete rendering FOLLOWED by something - a comment as in an obo
+                // `is_a` value, a second number, white space - which is no valid text)
+                let tail = if rng.chance(1, 4) { *rng.pick(&[" ! Phenotypic abnormality", " 34", " ", "\t", "!", " HP:0000001", "\n"]) } else { "" };
+                format!("HP:{n:07}{tail}")
             }
             2 => {
                 // overflow region
@@ -1088,6 +1103,11 @@ fn c16(rng: &mut Rng, tier: &str, idx: usize) -> Case {
         if s > 0 {
             c.op(format!("same 0 {s}"));
         }
+        if s == 1 {
+            // ... and `Ontology::compare` of two supply orders of the same facts reports nothing
+            c.op("compare 0 1".to_string());
+            c.op("oracle compare 0 1".to_string());
+        }
         if with_roots && s == k - 1 {
             // ... also after the binary round trip of an ontology whose terms were supplied in
             // another order (the writer walks the arena in insertion order)
@@ -1333,6 +1353,20 @@ fn c19(rng: &mut Rng, idx: usize) -> Case {
     }
     c.op("dump 0".to_string());
     c.op("oracle defaults 0".to_string());
+    if idx % 4 == 2 {
+        // the reloaded ontology (terms were supplied in any order) has the same roots and categories
+        c.op("roundtrip 0 6".to_string());
+        c.op("dump 6".to_string());
+        c.op("oracle defaults 6".to_string());
+        c.stat("binary_round_trips", 1);
+    }
+    if idx % 4 == 1 {
+        // a clone keeps the modifier roots and the categories
+        c.op("clone 0 5".to_string());
+        c.op("dump 5".to_string());
+        c.op("oracle defaults 5".to_string());
+        c.stat("clones", 1);
+    }
     c.nontrivial = missing > 1 && top >= 2;
     c
 }
